@@ -50,6 +50,14 @@ def check(run):
         C08.client(R)        # closed is set only after the socket is closed: no window with neither flag set
         C11.private(R)       # no per-session frame object is shared between a sender and a closer
     C08.onlyclose(R, RID='C12.enter')
+    with R.as_rule('C12.enter'):
+        C08.writers(R)       # the closing / closed flags change only at their tabled places: no window (say at the Closed
+                             # event) in which neither is set while the socket is still open
+    from . import C17
+    R.rule('C12.session', 'the state that refuses sends and the socket they go to belong to the same connection: every '
+                          'connect() gets a newly built session (no socket of the previous connection behind fresh flags)', 5)
+    with R.as_rule('C12.session'):
+        C17.session(R)
 
 
 def tests(R):
